@@ -41,7 +41,7 @@ def cq_s(s):
     return "[" + "; ".join(str(ord(c)) for c in s) + "]"
 
 
-def make_frame(rng, ctx_rows, allow_collisions=True):
+def make_frame(rng, ctx_rows, allow_collisions=True, force_mode=None):
     inp = ao.mk_input(rng, max_rows=ctx_rows, recipes=fo.LAYOUTS)
     if inp.get("history_failed") or inp["built"][0] != "ok":
         return None
@@ -59,6 +59,8 @@ def make_frame(rng, ctx_rows, allow_collisions=True):
     # names: plain / colliding across layers (a base column and a field of the OTHER nest named like a field of n1) /
     # legal names with spaces and punctuation (no '.', no backtick)
     mode = rng.choice(["plain", "plain", "collide", "punct"]) if allow_collisions else rng.choice(["plain", "punct"])
+    if force_mode and allow_collisions:
+        mode = force_mode
     nm = {"x": "x", "y": "y", "n1": "n1", "n2": "n2", "s": "s", "k": "k", "mode": mode}
     if mode == "collide":
         nm["y"] = names1[0]
@@ -87,7 +89,10 @@ def generate(ctx):
     try:
         for i in range(ctx.budget(130, 1100)):
             kind = ["full", "plain_arrow", "select", "select", "select", "full_and_partial", "foreign", "select_reject"][i % 8]
-            made = make_frame(rng, 6 if ctx.tier == "quick" else 10, allow_collisions=kind != "select_reject")
+            # every other partial load runs on names that collide across the layers (a leaf found by NAME instead of by position
+            # is then the wrong leaf)
+            made = make_frame(rng, 6 if ctx.tier == "quick" else 10, allow_collisions=kind != "select_reject",
+                              force_mode="collide" if (kind == "select" and (i // 8) % 2 == 0) else None)
             if made is None:
                 continue
             nf, inp, ik, nm = made
